@@ -41,7 +41,10 @@ typedef uint64_t T_u; typedef int64_t T_s;
 #endif
 
 /* exact arithmetic is carried out in a type at least twice as wide */
-#if T_W <= 16
+#if T_W == 8
+typedef int32_t ex_t;
+# define EX_W 32
+#elif T_W == 16
 typedef int64_t ex_t;
 # define EX_W 64
 #else
